@@ -90,10 +90,15 @@ def run(ctx):
         for (k, p) in kinds:
             rec(prefix + [('policy', p), ('file', k, 'I' + chr(97 + len(prefix) // 2))], d - 1)
     rec([], depth)
+    for fixed in ([('file', 'dsd', 'Ia'), ('file', 'dsd', 'Ib')], [('file', 'dsd', 'Ia'), ('file', 'ssd', 'Ib'), ('file', 'dsd', 'Ic')],
+                  [('file', 'mmb', 'Ia'), ('file', 'dsd', 'Ib')], [('file', 'ssd', 'Ia'), ('file', 'mmb', 'Ib'), ('file', 'ssd', 'Ic')],
+                  [('policy', 'first'), ('file', 'mmb', 'Ia'), ('file', 'ssd', 'Ib')], [('file', 'ssd', 'Ia'), ('policy', 'first'), ('file', 'mmb', 'Ib'), ('policy', 'physical'), ('file', 'dsd', 'Ic')],
+                  [('file', 'dsd', 'Ia'), ('policy', 'first'), ('file', 'ssd', 'Ib'), ('file', 'dsd', 'Ic')]):
+        seqs.append(fixed)
     for _ in range(n):
         seqs.append(gen_sequence(r, 6))
     cases = []
-    mmb_present = {0, 1, 2}
+    mmb_present = {0, 2, 5}        # with unformatted slots in between: they still occupy their drive numbers
     for si, seq in enumerate(seqs):
         files = {}
         argv = []
@@ -189,6 +194,25 @@ def run(ctx):
                 if o[1] == 'mmb':
                     # 511 surfaces, most unformatted: take all numbers shown as this image by --show-config
                     allslots = sorted(d for d, desc in cfg.items() if (o[2] + '.mmb') in desc)
+                if o[1] == 'mmb':
+                    # slot k of an archive is its k-th surface, formatted or not
+                    slots = sorted(mmb_present)
+                    base = newnums[0] - (2 * slots[0] if pol_at[pi] == 'physical' else 0)
+                    if pol_at[pi] == 'physical':
+                        expd = [base + 2 * sl for sl in slots]
+                    else:
+                        occ2, e2, nn2 = set(old), [], 0
+                        for _ in range(max(slots) + 1):
+                            while nn2 in occ2:
+                                nn2 += 1
+                            e2.append(nn2)
+                            occ2.add(nn2)
+                        expd = [e2[sl] for sl in slots]
+                    if newnums != expd:
+                        ctx.violation('mmb-slot-numbering', '%s policy: slots %s of %s are on drives %s, expected %s (unformatted slots keep their numbers)' % (
+                            pol_at[pi], slots, o[2], newnums, expd), rp)
+                if pol_at[pi] == 'physical' and o[1] == 'dsd' and len(newnums) == 2 and not (newnums[0] % 4 < 2 and newnums[1] == opposite(newnums[0])):
+                    ctx.violation('physical-not-one-drive', 'physical policy: the two sides of %s are on drives %s, which are not the two sides of one physical drive' % (o[2], newnums), rp)
                 if pol_at[pi] == 'physical':
                     seqn = allslots if allslots else newnums
                     if any(b - a != 2 for a, b in zip(seqn, seqn[1:])):
